@@ -50,7 +50,10 @@ impl Prop for C10 {
             max_tags: 2,
             ..EvCfg::default()
         };
-        history(w, cfg, tier.pick(30, 100)).prop_map(|ops| Case { ops }).boxed()
+        // plus events that are "about" or "addressed to" another pool author (gift wraps and their near misses): still
+        // not that author's to delete
+        let gw = (0u8..4, 0u8..4, 0u8..10, 100u64..116).prop_map(|(a, t, s, time)| Op::Store(crate::props::c18::giftwrap(a, t, s, time)));
+        prop::collection::vec(prop_oneof![8 => op_strategy(w, cfg), 1 => gw], 0..=tier.pick(30, 100)).prop_map(|ops| Case { ops }).boxed()
     }
     fn label_floors(&self) -> Vec<(&'static str, f64)> {
         vec![("request-names-foreign-stored", 0.3), ("foreign-after-own", 0.08)]
